@@ -504,6 +504,37 @@ func (g *pkgGen) generate(pkgLevel bool) (src string, queries []query) {
 				own[n] = true
 			}
 		}
+		// names promoted through MORE than one embedded struct of t (possible since own fields may shadow: T5 embeds T1 and
+		// declares its own F4, T21 embeds T1 and T5) are ambiguous selectors in Go; which embedding answers for them is
+		// not defined by the statement - they are not asked
+		promotedBy := map[string]int{}
+		for _, f := range t.fields {
+			if f.embedded == "" {
+				continue
+			}
+			if e := byName[f.embedded]; e != nil {
+				seen := map[string]bool{}
+				var collect func(e *typ, depth int)
+				collect = func(e *typ, depth int) {
+					if e == nil || depth > 6 {
+						return
+					}
+					for _, ef := range e.fields {
+						if ef.embedded != "" {
+							collect(byName[ef.embedded], depth+1)
+							continue
+						}
+						for _, n := range ef.names {
+							seen[n] = true
+						}
+					}
+				}
+				collect(e, 0)
+				for n := range seen {
+					promotedBy[n]++
+				}
+			}
+		}
 		for _, f := range t.fields {
 			if f.embedded != "" {
 				e := byName[f.embedded]
@@ -516,7 +547,7 @@ func (g *pkgGen) generate(pkgLevel bool) (src string, queries []query) {
 						continue
 					}
 					for _, n := range ef.names {
-						if own[n] || !(n[0] >= 'A' && n[0] <= 'Z') {
+						if own[n] || !(n[0] >= 'A' && n[0] <= 'Z') || promotedBy[n] > 1 {
 							continue
 						}
 						queries = append(queries, query{Type: t.name, Expr: expr, Names: []string{n}, Want: nonNil(ef.doc.expectedFor(n)), OK: true, Kind: "delegated-field", Hostile: true, Prefixed: len(f.doc.comment) > 0})
@@ -663,6 +694,10 @@ func (p *prop) runBatch(c core.Case, w *core.Worker, res *core.Result, r *rand.R
 			}
 			res.Inc("query_" + q.Kind)
 			if msg, isBad := bad[i]; isBad {
+				if dd := os.Getenv("VERIF_DUMP"); dd != "" {
+					_ = os.WriteFile(filepath.Join(dd, pkk.name+".src.go"), []byte(pkk.src), 0o644)
+					_ = os.WriteFile(filepath.Join(dd, pkk.name+".gen.go"), []byte(gen), 0o644)
+				}
 				res.Fail(q.Kind, q.Kind, fmt.Sprintf("package %s: (%s).RuntimeDoc(%v): %s\n--- source:\n%s", pkk.name, q.Expr, q.Names, msg, clip(typeSource(pkk.src, q.Type), 1200)), nil)
 			}
 		}
